@@ -22,6 +22,20 @@
 #include <string>
 #include <fstream>
 
+namespace {
+
+  /// Skip the white space that follows a token, unless the token ended exactly at the end of the file
+  /// (a last record without final newline is complete; std::ws on a stream at EOF would set failbit)
+  inline void skip_ws(std::istream & in_)
+  {
+    if (in_ and not in_.eof()) {
+      in_ >> std::ws;
+    }
+    return;
+  }
+
+} // namespace
+
 namespace bxdecay0 {
 
   struct event_reader::pimpl_type
@@ -248,20 +262,22 @@ namespace bxdecay0 {
       if (is_debug()) std::cerr << "[debug] bxdecay0::event_reader::load_next_event: Parsing event header...\n";
       fin >> evId >> std::ws >> evTime >> std::ws >> decayGenName >> std::ws;
       if (_config_.zero_event_time) evTime = 0.0;
-      fin >> nbParticles >> std::ws;
+      fin >> nbParticles;
       if (!fin or nbParticles < 0) {
         throw std::runtime_error("bxdecay0::event_reader::load_next_event: Invalid/corrupted event format!");
       }
+      skip_ws(fin);
       evt_.set_time(evTime);
       evt_.set_generator(decayGenName);
       for (int iPart = 0; iPart < nbParticles; iPart++) {
         if (is_debug()) std::cerr << "[debug] bxdecay0::event_reader::load_next_event: Parsing particle #" << iPart << " ...\n";
         int partCode = (int) INVALID_PARTICLE;
         double partTime, px, py, pz;
-        fin >> partCode >> std::ws >> partTime >> std::ws >> px >> std::ws >> py >> std::ws >> pz >> std::ws;
+        fin >> partCode >> std::ws >> partTime >> std::ws >> px >> std::ws >> py >> std::ws >> pz;
         if (!fin) {
           throw std::runtime_error("bxdecay0::event_reader::load_next_event: Invalid/corrupted particle format!");
         }
+        skip_ws(fin);
         if (partCode != (int) GAMMA and partCode != (int) POSITRON and partCode != (int) ELECTRON
             and partCode != (int) NEUTRON and partCode != (int) PROTON and partCode != (int) ALPHA) {
           throw std::runtime_error("bxdecay0::event_reader::load_next_event: Invalid particle code [" + std::to_string(partCode) + "]!");
@@ -290,7 +306,7 @@ namespace bxdecay0 {
       }
 
       if (is_debug()) std::cerr << "[debug] bxdecay0::event_reader::load_next_event: Reading ws...\n";
-      fin >> std::ws;
+      skip_ws(fin);
       if (fin.eof()) {
         _close_current_file_();
         if (not is_terminated()) {
@@ -324,18 +340,19 @@ namespace bxdecay0 {
       double evTime = 0.0;
       std::string decayGenName;
       int nbParticles = 0;
-      fin >> evId >> std::ws >> evTime >> std::ws >> decayGenName >> std::ws >> nbParticles >> std::ws;
+      fin >> evId >> std::ws >> evTime >> std::ws >> decayGenName >> std::ws >> nbParticles;
       for (int iPart = 0; fin and iPart < nbParticles; iPart++) {
         int partCode;
         double partTime, px, py, pz;
-        fin >> partCode >> std::ws >> partTime >> std::ws >> px >> std::ws >> py >> std::ws >> pz >> std::ws;
+        skip_ws(fin);
+        fin >> partCode >> std::ws >> partTime >> std::ws >> px >> std::ws >> py >> std::ws >> pz;
       }
       if (!fin) {
         throw std::runtime_error("bxdecay0::event_reader::_at_configure_: Invalid/corrupted event format!");
       }
       _pimpl_->last_event_in_file_index++;
       _pimpl_->parsed_event_counter++;
-      fin >> std::ws;
+      skip_ws(fin);
       if (fin.eof()) {
         _close_current_file_();
         if (not is_terminated()) {
